@@ -176,6 +176,34 @@ Theorem C05_h2_meta_wellformed_delivered : forall mx sid frags,
 Proof. exact h2_meta_wellformed_delivered. Qed.
 Print Assumptions C05_h2_meta_wellformed_delivered.
 
+(* several header blocks on ONE connection: the Framer's hpack decoder carries a flag (emitting or
+   not) from block to block; readMetaFrame re-enables it first, so what a block yields does not depend
+   on what the previous one left behind ... *)
+Theorem C05_h2_meta_block_independent : forall e1 e2 mx sid frags,
+  fst (h2_meta_from e1 mx sid frags) = fst (h2_meta_from e2 mx sid frags) /\
+  fst (h2_meta_from e1 mx sid frags) = h2_meta mx sid frags.
+Proof. exact h2_meta_block_independent. Qed.
+Print Assumptions C05_h2_meta_block_independent.
+
+(* ... and every sequence of blocks read through one Framer is, block by block, what each block
+   alone gives, up to the first connection error - whatever was rejected or truncated before *)
+Theorem C05_h2_meta_seq_independent : forall mx blocks e,
+  h2_meta_seq e mx blocks = until_conn_err (map (fun b => h2_meta mx (fst b) (snd b)) blocks).
+Proof. intros mx blocks e. apply h2_meta_seq_independent. Qed.
+Print Assumptions C05_h2_meta_seq_independent.
+
+(* without the re-enabling line a rejected block poisons the connection (the next, valid, response is
+   delivered with an empty field list) *)
+Theorem C05_h2_meta_noreset_refuted :
+  let bad := (1, [(10, [(bs ":status", bs "200"); (bs "X-Upper", bs "v")])]) in
+  let good := (3, [(10, [(bs ":status", bs "200"); (bs "server", bs "x")])]) in
+  h2_meta_seq true 65536 [bad; good] =
+    [MErr (EStream 1 ErrCodeProtocol); MOk [(bs ":status", bs "200"); (bs "server", bs "x")] false] /\
+  h2_meta_seq_with h2_meta_from_noreset true 65536 [bad; good] =
+    [MErr (EStream 1 ErrCodeProtocol); MOk [] false].
+Proof. exact h2_meta_noreset_refuted. Qed.
+Print Assumptions C05_h2_meta_noreset_refuted.
+
 (* ---------- HTTP/3 frames (RFC 9114 §7.1, §7.2.4; internal/http3/frames.go) ---------- *)
 
 (* dataFrame.Append / headersFrame.Append are read back by ParseNext: same type and length, payload
